@@ -105,10 +105,13 @@ def contracts():
         assumptions=["the ErrorCommsManager's policy snapshot equals the policy passed in (both come from config.csvpath_errors_policy)",
                      "the handler's _csvpath and its ErrorCommsManager's _csvpath are treated as separate objects: _handle_if writes nothing the manager reads (frame-checked)"],
         **common))
-    return cs
+    # every trapped error reaches the handler whatever ends the line (Matcher.matches), and every exception below an expression is trapped (Expression.matches)
+    from . import core, control
+    extra = core.select(core.contracts(), ("Matcher.matches",))
+    return cs + extra + control.expression_matches() + control.interfaces()
 
 
-LEVEL = "other"
+LEVEL = "proof"
 EXPLANATION = ("The five observable effects of error handling are postconditions (normal and exceptional exits) on the real "
                "ErrorHandler._handle_if for a symbolic policy list and symbolic validation-mode overrides; ErrorCommsManager.do_i_* and "
                "ValidationMode.set_* are proved against the override-else-policy rule; attribute safety makes a missing attribute "
